@@ -54,12 +54,12 @@ def fnOp (E : Env) (ws : List String) : Option String :=
       let s ← unhexArg s
       match parseInt s (← base.toInt?) (← bits.toNat?) with
       | .ok v => some s!"ok {v}"
-      | .error e => some ("err " ++ hexArg (numErrorText E "ParseInt" s e))
+      | .error e => some ("err " ++ hexArg (numErrorText E (B "ParseInt") s e))
   | ["parseuint", s, base, bits] => do
       let s ← unhexArg s
       match parseUint s (← base.toInt?) (← bits.toNat?) with
       | .ok v => some s!"ok {v}"
-      | .error e => some ("err " ++ hexArg (numErrorText E "ParseUint" s e))
+      | .error e => some ("err " ++ hexArg (numErrorText E (B "ParseUint") s e))
   | ["parsebool", s] => do
       match parseBool (← unhexArg s) with
       | some b => some ("ok " ++ b01 b)
